@@ -91,6 +91,10 @@ class Protonate:
             molecular_container.conformations[name].atoms = (
                 molecular_container.conformations[name]
                 .get_non_hydrogen_atoms())
+            # the bonds to the removed hydrogens go with them
+            for atom in molecular_container.conformations[name].atoms:
+                atom.bonded_atoms = [
+                    b for b in atom.bonded_atoms if b.element != 'H']
 
     def set_charge(self, atom: Atom):
         """Set charge for atom.
